@@ -600,6 +600,48 @@ func checkGlobalRefEscapeOpt(c *core.Ctx, r *core.Rule, prog *core.Prog, pkgPath
 					continue
 				}
 				n++
+				// an element of a package-level map that is itself a slice or a map is shared storage too: m[k] handed
+				// out whole lets the receiver write into what every other request reads
+				for _, ref := range *ld.Referrers() {
+					lk, ok := ref.(*ssa.Lookup)
+					if !ok || lk.X != ssa.Value(ld) {
+						continue
+					}
+					var elems []ssa.Value
+					if lk.CommaOk {
+						for _, r2 := range *lk.Referrers() {
+							if ex, ok := r2.(*ssa.Extract); ok && ex.Index == 0 {
+								elems = append(elems, ex)
+							}
+						}
+					} else {
+						elems = append(elems, lk)
+					}
+					for _, ev := range elems {
+						switch ev.Type().Underlying().(type) {
+						case *types.Slice, *types.Map:
+						default:
+							continue
+						}
+						for _, r3 := range *ev.Referrers() {
+							escapes := ""
+							switch x := r3.(type) {
+							case *ssa.Store:
+								if x.Val == ev {
+									escapes = "is stored into another structure"
+								}
+							case *ssa.Return:
+								escapes = "is returned"
+							case *ssa.MakeInterface:
+								escapes = "is converted to an interface value"
+							}
+							if escapes != "" {
+								bad++
+								r.Fail(fmt.Sprintf("%s:global-element-escape:%s", label, g.Name()), c.Pos(core.InstrPos(r3)), fmt.Sprintf("an element of the package-level map %s (a %s) %s in %s without being copied: its backing store is shared by every request, and whoever receives it (a user's handler) can modify it in place (sort it, overwrite an entry) under every other request's feet", g.Name(), ev.Type().Underlying().String(), escapes, fn.Name()))
+							}
+						}
+					}
+				}
 				for _, ref := range *ld.Referrers() {
 					escapes := ""
 					switch x := ref.(type) {
